@@ -207,6 +207,7 @@ def record_restructure(
     names: bool = False,
     reload_between: bool = False,
     via_subgraphs: bool = False,
+    default_recursion_limit: bool = False,
 ) -> Dict[str, Any]:
     """Run join_returns / restructure_loop / restructure_branch on `scfg`,
     recording every primitive event and the full state at every stage."""
@@ -253,6 +254,8 @@ def record_restructure(
                     beh["exc"] = "reload:" + exc_sig(e)
                     break
             try:
+                if default_recursion_limit:
+                    sys.setrecursionlimit(1000)       # what a user of the library runs with (the harness itself needs more)
                 if via_subgraphs and name != "closed":
                     # the same stage, driven through the SUB-GRAPH objects: the level itself, then every top-level region's own
                     # sub-graph restructures itself (SCFG.restructure_loop / restructure_branch of region.subregion, which works on
@@ -264,6 +267,7 @@ def record_restructure(
                 else:
                     getattr(scfg, fn)()
             except RecursionError as e:
+                sys.setrecursionlimit(lim)
                 t.log("stage", "x", st0["root"], {"name": name}, exc=exc_sig(e))
                 beh["exc"] = exc_sig(e)
                 break
@@ -271,6 +275,7 @@ def record_restructure(
                 t.log("stage", "x", st0["root"], {"name": name}, exc=exc_sig(e))
                 beh["exc"] = exc_sig(e)
                 break
+            sys.setrecursionlimit(lim)
             t.log("stage", "x", st0["root"], {"name": name})
             beh["reached"] = name
             if stage_states:
